@@ -9,17 +9,24 @@
 EXTENDS Conform, IOUtils
 Rec == ndJsonDeserialize(IOEnv.TRACE)
 
-VARIABLES l, nbad, st
-tvars == <<l, nbad, st>>
+VARIABLES l, nbad, st, stok
+tvars == <<l, nbad, st, stok>>
 
-TraceInit == l = 1 /\ nbad = 0 /\ st = LaxEmpty
+TraceInit == l = 1 /\ nbad = 0 /\ st = LaxEmpty /\ stok = TRUE
 
 Flag(ev) == PrintT(<<"NONCONF", ToJson([line |-> l, id |-> ev.id, op |-> ev.op, class |-> Classify(ev)])>>)
 
+\* A history step is judged from the tracked state.  If an earlier step of the same history logged a
+\* post-state that is not even well-formed (it was flagged then), there is nothing to re-synchronise on:
+\* the rest of that history is not judged (SKIPPED lines) until the next reset.
+Judgeable(ev) == HasPre(ev.args) \/ ev.op \notin LaxOps \/ ev.op = "lax.reset" \/ stok
+Skip(ev) == PrintT(<<"SKIPPED", ToJson([line |-> l, id |-> ev.id, op |-> ev.op])>>)
 Step == /\ l <= Len(Rec)
         /\ LET ev == Rec[l] IN
              /\ st' = NextTracked(st, ev)
-             /\ IF ConfEvent(st, ev) THEN nbad' = nbad ELSE nbad' = nbad + 1 /\ Flag(ev)
+             /\ stok' = (IF ev.op \in LaxOps /\ "post" \in DOMAIN ev.obs /\ ~HasPre(ev.args) THEN WFLax(ev.obs.post) ELSE stok)
+             /\ IF ~Judgeable(ev) THEN nbad' = nbad /\ Skip(ev)
+                ELSE IF ConfEvent(st, ev) THEN nbad' = nbad ELSE nbad' = nbad + 1 /\ Flag(ev)
         /\ l' = l + 1
 TraceSpec == TraceInit /\ [][Step]_tvars
 
